@@ -259,3 +259,157 @@ pub fn crash_check(prop: &str, suites: Vec<Suite>, accept: &[&str], plan: CrashP
     );
     let _ = prop;
 }
+
+// ------------------------------------------------------------------ replay of one crash image
+
+fn parse_descs(text: &str) -> Vec<crash::ImageDesc> {
+    let num_after = |s: &str, key: &str| -> Option<usize> {
+        let i = s.find(key)? + key.len();
+        let digits: String = s[i..].chars().take_while(|c| c.is_ascii_digit()).collect();
+        digits.parse().ok()
+    };
+    text.split(" -> crash during recovery ")
+        .filter_map(|part| {
+            let epoch = num_after(part, "epoch: ")?;
+            let cut = num_after(part, "cut: ")?;
+            let inflight = num_after(part, "inflight: ").unwrap_or(0);
+            let l0 = part.find("landed: [")? + "landed: [".len();
+            let l1 = l0 + part[l0..].find(']')?;
+            let landed: Vec<usize> = part[l0..l1].split(',').filter_map(|x| x.trim().parse().ok()).collect();
+            let torn = part.find("torn: Some((").map(|i| {
+                let j = i + "torn: Some((".len();
+                let k = j + part[j..].find(')').unwrap_or(0);
+                let v: Vec<usize> = part[j..k].split(',').filter_map(|x| x.trim().parse().ok()).collect();
+                (v.first().copied().unwrap_or(0), v.get(1).copied().unwrap_or(0), v.get(2).copied().unwrap_or(0))
+            });
+            Some(crash::ImageDesc { epoch, cut, landed, torn, inflight })
+        })
+        .collect()
+}
+
+fn pick_image(base: &[u8], log: &[IoEv], want: &crash::ImageDesc, sector_tear: bool) -> Option<Vec<u8>> {
+    let mut found = None;
+    crash::enumerate(base, log, 0, sector_tear, |img, d| {
+        if d.epoch == want.epoch && d.landed == want.landed && d.torn == want.torn {
+            found = Some(img.to_vec());
+            return false;
+        }
+        true
+    });
+    found
+}
+
+pub fn all_crash_suites() -> Vec<Suite> {
+    let mut v = Vec::new();
+    for thorough in [false, true] {
+        v.extend(crate::suites::crash_suites(thorough));
+        v.extend(crate::suites::partition_suites(thorough));
+        v.extend(crate::suites::layout_suites(thorough));
+    }
+    v
+}
+
+/// Re-execute the history, rebuild exactly the recorded crash image (and nested
+/// crash-during-recovery images), recover it and print what every oracle says.
+pub fn replay(suite: &str, hist: &[u16], image: &str) -> i32 {
+    let Some(s) = all_crash_suites().into_iter().find(|s| s.name == suite) else {
+        println!("no crash suite {suite}");
+        return 2;
+    };
+    println!("suite {} config {} history {:?}", s.name, s.cfg.name(), seq::describe_hist(&s, hist));
+    let po = seq::run_path(&s, hist, None, true);
+    if let Some(m) = po.machinery {
+        println!("MACHINERY {m}");
+        return 2;
+    }
+    if let Some(v) = &po.violation {
+        println!("violation while producing the history: {v}");
+        return 1;
+    }
+    let Some(base) = po.image.as_ref() else { return 2 };
+    let keys = crash::tables_keys(&s.tables);
+    let ops: Vec<Op> = hist.iter().map(|&i| s.ops[i as usize]).collect();
+    let ob = Obligations::from_path(&keys, &ops, &po.outs, &po.snapshots, &po.log, s.cfg.ttl, s.cfg.data_blocks > 12);
+    let now = po.final_model.as_ref().map(|m| m.now).unwrap_or(crate::sut::T0);
+    let descs = parse_descs(image);
+    if descs.is_empty() {
+        // e.g. "live store at flush acknowledgement": the sequential path above already re-checked it
+        for m in &po.flush_checks {
+            println!("violation: {m}");
+        }
+        return if po.flush_checks.is_empty() { 0 } else { 1 };
+    }
+    let mut img = match pick_image(base, &po.log, &descs[0], true) {
+        Some(i) => i,
+        None => {
+            println!("MACHINERY the recorded image {:?} does not occur in this execution's log", descs[0]);
+            return 2;
+        }
+    };
+    println!("level 0 image: {:?} ({} device writes in the log)", descs[0], po.log.iter().filter(|e| matches!(e, IoEv::W { .. })).count());
+    let mut reference: Option<crash::Recovered> = None;
+    for (level, d) in descs.iter().enumerate().skip(1) {
+        // recover the current image with logging, then cut the recovery's own writes
+        let f = crate::util::TempFile::new("replay");
+        std::fs::write(&f.0, &img).unwrap();
+        let sess = crate::session::Session::new();
+        sess.clock.store(now, std::sync::atomic::Ordering::SeqCst);
+        sess.set_flag(crate::session::F_NO_URING, !s.cfg.uring);
+        sess.set_flag(crate::session::F_FORCE_SYNC, !s.cfg.uring);
+        sess.log_enabled.store(true, std::sync::atomic::Ordering::SeqCst);
+        match crash::recover(s.cfg, f.path(), sess.clone()) {
+            Ok((mut sut, rec)) => {
+                if reference.is_none() {
+                    reference = Some(rec);
+                }
+                sut.close();
+            }
+            Err(e) => {
+                println!("violation: C03: {e} (level {})", level - 1);
+                return 1;
+            }
+        }
+        let rlog = sess.take_log();
+        match pick_image(&img, &rlog, d, false) {
+            Some(i) => img = i,
+            None => {
+                println!("MACHINERY nested image {d:?} does not occur in the recovery log");
+                return 2;
+            }
+        }
+        println!("level {level} image (crash during recovery): {d:?}");
+    }
+    let f = crate::util::TempFile::new("replay");
+    std::fs::write(&f.0, &img).unwrap();
+    let sess = crate::session::Session::new();
+    sess.clock.store(now, std::sync::atomic::Ordering::SeqCst);
+    sess.set_flag(crate::session::F_NO_URING, true);
+    let cut = descs[0].cut;
+    match crash::recover(s.cfg, f.path(), sess) {
+        Err(e) => {
+            println!("violation: C03: {e} on the crash image");
+            1
+        }
+        Ok((mut sut, rec)) => {
+            println!("recovered contents: {:?}", rec.keys.iter().map(|(k, r)| format!("{}={}@{} [{}+{}]", show(k), r.value.as_ref().map(|v| show(v)).unwrap_or_else(|e| format!("<{e}>")), r.ts, r.sector, r.blocks)).collect::<Vec<_>>());
+            println!("admissible windows: {:?}", ob.window(cut));
+            let mut msgs = crash::judge(&ob, cut, &rec, now);
+            msgs.extend(crash::structural(&s.cfg, &rec, now));
+            if let Some(r0) = &reference {
+                if r0.contents() != rec.contents() {
+                    msgs.push("C04: contents differ from the first successful recovery".into());
+                }
+            }
+            sut.close();
+            for m in &msgs {
+                println!("violation: {m}");
+            }
+            if msgs.is_empty() {
+                println!("no violation on this image");
+                0
+            } else {
+                1
+            }
+        }
+    }
+}
